@@ -157,9 +157,13 @@ impl Project for FileBackedProject {
                 .collect::<Vec<_>>()
                 .join("|"),
         );
-        let library_results: Vec<_> = self
-            .sources
-            .iter_mut()
+        // The analysis stops at the first problem each rule finds, so the order of
+        // the files decides which problem that is. Use an order that depends on the
+        // files and not on the hash map.
+        let mut sources: Vec<_> = self.sources.iter_mut().collect();
+        sources.sort_by_key(|source| source.0.to_string());
+        let library_results: Vec<_> = sources
+            .into_iter()
             .map(|source| source.1.library())
             .collect();
 
